@@ -21,7 +21,8 @@ RULE = ('E2 histories with master restarts; at every restart, right after '
         'canonical JSON.'
         ' Since rounds 6-7: allocation changes and partition reboot-schedule changes (read by masters only at start) before the restart; leased instances on old servers.'
         " Since round 8: rack definitions deleted under their servers; such servers are not 'still offering' (the topology a new master builds does not contain them)."
-        ' Since round 9: restarts after unschedule-only changes are judged as well (records of the unscheduled instances skipped); rmrestart macro (instances stopped while no master looks).')
+        ' Since round 9: restarts after unschedule-only changes are judged as well (records of the unscheduled instances skipped); rmrestart macro (instances stopped while no master looks).'
+        " Since round 10: bounceplace macro (a server bounces with the same record within its instances' retention, new leased / schedule-once instances are placed, a new master starts on records on both sides of the presence node).")
 ASSUMPTIONS = [
     'fake ZooKeeper stands in for the ensemble; ctime ordering follows the '
     'virtual clock, which the harness advances before every external write',
